@@ -38,6 +38,20 @@ def features(T, v, mode):
 
 def run_case(case):
     """-> list of failure dicts (sub, kind, sig, msg). Deterministic; no Hypothesis."""
+    pref = case.get('real_pref')
+    if pref is None:
+        return _run_case(case)
+    # one more encoder mode: the documented class-wide preference for the base of binary REALs
+    from pyasn1.type import univ as _univ
+    old = _univ.Real.binEncBase
+    _univ.Real.binEncBase = pref
+    try:
+        return _run_case(case)
+    finally:
+        _univ.Real.binEncBase = old
+
+
+def _run_case(case):
     T, v = case['T'], case['v']
     defMode, chunk = case['mode']
     fails = []
@@ -103,11 +117,13 @@ def replay(case):
 
 def run_shard(desc, seed, tier, col):
     from hypothesis import strategies as st
-    strat = st.tuples(gen.type_and_value(CFG), gen.ber_modes())
+    strat = st.tuples(gen.type_and_value(CFG), gen.ber_modes(), st.sampled_from([None, None, 8, 16]))
 
     def body(x):
-        (T, v), mode = x
+        (T, v), mode, pref = x
         case = {'T': T, 'v': v, 'mode': list(mode)}
+        if pref is not None and 'REAL' in ir.kinds_in(T):
+            case['real_pref'] = pref
         nontriv = ir.depth(T) >= 1 or ir.has_tags(T) or tuple(mode) != (True, 0)
         col.case({'T': T, 'v': v, 'm': list(mode)}, nontriv, features(T, v, mode),
                  sample={'type': ir.show_type(T), 'value': absval.short(v, 200), 'defMode': mode[0], 'maxChunkSize': mode[1]})
